@@ -124,7 +124,9 @@ func (r *DailyRotateRule) OutdatedFiles() []string {
 	if r.gzip {
 		buf.WriteString(gzipExt)
 	}
-	boundaryFile := buf.String()
+	// Glob 返回的是规范化（filepath.Clean）后的路径，边界文件名必须同形，
+	// 否则对 ./logs/app.log 这类文件名，先后顺序由前缀而不是日期决定。
+	boundaryFile := filepath.Clean(buf.String())
 
 	var outdates []string
 	for _, file := range files {
